@@ -126,7 +126,7 @@ func (w *World) runPath(solver *Solver, fn *ssa.Function, dec []int, wantModel b
 		funcs: map[*ssa.Function]bool{}, symCount: map[string]int{}, globals: map[*ssa.Global]*Cell{},
 		builders: map[string]StrV{}, mutexes: map[string]*mutexState{}, onces: map[string]*onceState{},
 		wgs: map[string]*wgState{}, mapOrderFn: map[string]bool{}, appendCapFn: map[string]bool{}, reached: map[string]bool{},
-		nativeObjs: map[string]Value{}}
+		nativeObjs: map[string]Value{}, raceOn: true}
 	e.initThreads(w.cfg.MaxPreempt)
 	solver.Push()
 	reason := "ok"
